@@ -3,7 +3,7 @@
    (lexer -> token stream -> parser -> transforms), proofs in proofs/CostExamples.v. *)
 From Coq Require Import List NArith Bool Arith.
 Import ListNotations.
-From PV Require Import Regex Base LexTables NodeModel ParserBase ParserDecl ParserMain Api CostExamples UnicodeTables PyRepr Lexer LexerProofs.
+From PV Require Import Regex Base LexTables NodeModel ParserBase ParserDecl ParserMain Api CostExamples UnicodeTables PyRepr Lexer LexerProofs BinaryRefine.
 
 (* witness of exponential growth: nesting depth 1 *)
 Theorem C16_complit_1 :
@@ -58,3 +58,13 @@ Theorem C16_lex_iterations_linear : forall text file,
   snd (raw_lex (S (length text)) (init_lexst file) text) = true.
 Proof. exact lex_terminates. Qed.
 Print Assumptions C16_lex_iterations_linear.
+
+From Coq Require Import ZArith.
+(* the precedence-climbing loops of the parser model never re-read a token: for every token stream, the
+   token reads (_TokenStream.next() calls, speculative ones included) of a whole binary expression are one
+   per operator plus what the operand runs spend themselves (n) - no backtracking in operator parsing *)
+Theorem C16_binary_expression_cost : forall (P: Type) f lhs0 s t s',
+  p_binary_climb P f 0 lhs0 s = Ok (t, s') ->
+  exists l n, SeqT P s l n s' /\ Z.of_N (ticks P s') = (Z.of_N (ticks P s) + Z.of_nat (length l) + n)%Z.
+Proof. exact binary_expression_cost. Qed.
+Print Assumptions C16_binary_expression_cost.
